@@ -568,6 +568,19 @@ def prove_all_zero(diffs, assumptions=(), timeout=20, lemma_instances=(), seed=0
                   min(timeout, STAGE1_TIMEOUT))
     if v == "unsat":
         return Result("proved", 1, query_s=time.time() - t0, size=sz)
+    if v == "unknown" and not (ST.squares or lemma_instances):
+        # the solver ran out of its (short) identity budget: hand it the differences in expanded polynomial
+        # normal form instead (own exact sparse arithmetic, vlib/terms.py; the solver decides the expanded terms)
+        ps = [tm.to_poly(d) for d in nz]
+        if all(p_ is not None for p_ in ps):
+            g1 = tm.or_(*[tm.ne(tm.poly_to_term(p_), tm.const(0)) for p_ in ps])
+            if g1.op == "false":
+                v1, _ = run_z3(tm.to_smt2([tm._mk("not", (tm._mk("eq", (tm.const(0), tm.const(0)), "Bool"),), "Bool")],
+                                          comments=[label, "stage 1b: every difference expands to the zero polynomial"]), timeout)
+            else:
+                v1, _ = run_z3(tm.to_smt2([g1], comments=[label, "stage 1b: expanded polynomial normal form"]), timeout)
+            if v1 == "unsat":
+                return Result("proved", "1b", query_s=time.time() - t0, size=sz)
     have_side = bool(ST.facts or ST.domain or assumptions or lemma_instances or ST.nonzero)
     if have_side and not (ST.squares or lemma_instances):
         A = side_assumptions(list(assumptions) + list(lemma_instances))
